@@ -1692,6 +1692,10 @@ func runCompress(cfg *Config) *Result {
 			res.SetupError = "replay file: " + err.Error()
 			return res
 		}
+		if strings.HasPrefix(rp.Case, "writers ") {
+			czWriterProbe(res, cfg.Seed)
+			return res
+		}
 		c, err := czParseCase(rp.Case)
 		if err != nil {
 			res.SetupError = "replay case: " + err.Error()
@@ -1714,6 +1718,7 @@ func runCompress(cfg *Config) *Result {
 	rng := newRng(cfg.Seed)
 	cases = czGenerate(cfg, rng)
 	verdicts := czRunAll(e, cases)
+	czWriterProbe(res, cfg.Seed)
 	for i, c := range cases {
 		if verdicts[i] == nil {
 			continue
